@@ -11,6 +11,7 @@ from ..core import Info, Part, Ctx, Violation, HarnessError, require, guarded
 ID = "C17"
 TITLE = "Errors and @print output are attributed to the right file and line"
 RULE = (
+    "(Neutral lines include statements that span 2..3 lines through raw line breaks in string literals; sections are sealed or delimited independently, extent faults sit in either section of a service; one fault sits in the file *name* - an unregulated port-ID - of target or dependency; @print directives without an expression are part of the expected stream.)  "
     "Cases are workspaces ns/T.1.0 -> D1.1.0 -> ... (dependency chain of depth 0..3; every file a list of neutral lines: empty, "
     "whitespace-only, comments, fields, constants, @assert true, the reference to the next file, string literals containing `#` and quotes; 0..120 leading lines; the target optionally a service so that the fault lies in the response section; LF or CRLF per file) with ONE fault of "
     "a drawn category at a drawn line of a drawn file - syntax error, undefined identifier / bad operand in @assert, @print, a constant "
